@@ -801,6 +801,9 @@ func (st *Stack) AutoCompact() error {
 
 // CompactAll compacts the entire stack. If expiration is given, expire log entries.
 func (st *Stack) CompactAll(expiration *LogExpirationConfig) error {
+	if len(st.stack) == 0 {
+		return nil
+	}
 	_, err := st.compactRange(0, len(st.stack)-1, expiration)
 	return err
 }
@@ -828,6 +831,10 @@ func (st *Stack) Clean() error {
 		return err
 	}
 
+	if len(st.stack) == 0 {
+		// Nothing is known to be stale.
+		return nil
+	}
 	max := st.merged.MaxUpdateIndex()
 	for _, e := range entries {
 		name := e.Name()
